@@ -117,6 +117,13 @@ class Ctx:
             raise ModelThrow()
 
     def guard(s, site, cls='G'):
+        if isinstance(site, tuple):
+            # composite guard expression with C++ short-circuit semantics: ('and', a, b) | ('or', a, b) | ('not', a)
+            if site[0] == 'not': return 0 if s.guard(site[1], cls) else 1
+            a = s.guard(site[1], cls)
+            if site[0] == 'and': return s.guard(site[2], cls) if a else 0
+            if site[0] == 'or': return 1 if a else s.guard(site[2], cls)
+            raise ValueError(site)
         if cls == 'G': s.maybe_throw(3, site)
         if site not in s.dec: raise NeedGuard(site)
         v = s.dec[site]
@@ -476,6 +483,8 @@ class Sem:
         a = row.act
         if a is None: return
         if isinstance(a, int): s.L('A', a, s.pay)
+        elif isinstance(a, tuple) and a[0] == 'seq':
+            for x in a[1]: s.L('A', x, s.pay)       # ActionSequence_: in written order
         elif isinstance(a, tuple) and a[0] == 'send':
             s.L('A', a[1], s.pay)
             for ev2, mode in a[2]: s.submit(ev2, s.pay)
@@ -514,14 +523,20 @@ def explore(prog, conf, stepfn, probe=None, throws=False):
     return paths
 
 
+def flat_sites(g):
+    if g is None: return []
+    if isinstance(g, tuple): return [x for part in g[1:] for x in flat_sites(part)]
+    return [g]
+
+
 def guard_sites(prog):
     out = set()
     for m in prog.machines:
         for row in list(m.rows) + list(m.internal):
-            if row.guard is not None: out.add(row.guard)
+            out.update(flat_sites(row.guard))
         for st in m.states.values():
             for row in st.internal:
-                if row.guard is not None: out.add(row.guard)
+                out.update(flat_sites(row.guard))
     return sorted(out)
 
 
